@@ -8,11 +8,11 @@ package main
 // gated single-assignment expressions. No path is ever executed.
 
 import (
-	"math/big"
 	"fmt"
 	"go/constant"
 	"go/token"
 	"go/types"
+	"math/big"
 	"os"
 	"sort"
 	"strings"
